@@ -44,19 +44,16 @@ def Item.qual (T : List String) : Item → Bool
   | .node _ k _ _ _ _ _ => T.contains k
   | _ => false
 
-def Item.setPre (ps : List Pragma) : Item → Item
-  | .node id k hp df _ po b => .node id k hp df ps po b
+/-- `i._update(pragma=as_tuple(pragmas) + as_tuple(getattr(i, 'pragma', None)))`: new pragmas go in front of the
+ones already attached -/
+def Item.prependPre (ps : List Pragma) : Item → Item
+  | .node id k hp df pre po b => .node id k hp df (ps ++ pre) po b
   | x => x
 
-/-- `_update(pragma_post=ps)`: creates the instance attribute, so `hasattr` holds from now on -/
-def Item.setPost (ps : List Pragma) : Item → Item
-  | .node id k _ df pre _ b => .node id k true df pre ps b
+/-- `_update(pragma_post=as_tuple(getattr(x, 'pragma_post', None)) + as_tuple(pragmas))`; the attribute exists afterwards -/
+def Item.appendPost (ps : List Pragma) : Item → Item
+  | .node id k _ df pre po b => .node id k true df pre (po ++ ps) b
   | x => x
-
-/-- the `pragma` slot is non-empty (truthy) -/
-def Item.preNE : Item → Bool
-  | .node _ _ _ _ pre _ _ => !pre.isEmpty
-  | _ => false
 
 /-- what later iterations of `visit_tuple` look at on `updated[-1]` -/
 structure Last where
@@ -89,16 +86,16 @@ def attachGo (T : List String) (post : Bool) : List Item → List Pragma → Lis
   | [], pend, done, last =>
       match last with
       | some l =>
-          if post && !pend.isEmpty && l.qual T then done ++ [l.setPost pend]
+          if post && !pend.isEmpty && l.qual T && (lastOf T l).hp then done ++ [l.appendPost pend]
           else done ++ [l] ++ pend.map .pragma
       | .none => done ++ pend.map .pragma
   | .pragma p :: xs, pend, done, last => attachGo T post xs (pend ++ [p]) done last
   | x :: xs, pend, done, last =>
       let i := attachItem T post x
       if pend.isEmpty then attachGo T post xs [] (done ++ last.toList) (some i)
-      else if i.qual T then attachGo T post xs [] (done ++ last.toList) (some (i.setPre pend))
+      else if i.qual T then attachGo T post xs [] (done ++ last.toList) (some (i.prependPre pend))
       else if post && (lastInfo T last).q && (lastInfo T last).hp then
-        attachGo T post xs [] (done ++ (last.map (Item.setPost pend)).toList) (some i)
+        attachGo T post xs [] (done ++ (last.map (Item.appendPost pend)).toList) (some i)
       else attachGo T post xs [] (done ++ last.toList ++ pend.map .pragma) (some i)
 end
 
@@ -128,43 +125,6 @@ def detachRoot (T : List String) (post : Bool) : Item → Item
   | .node id k hp df pre po body => .node id k hp df pre po (detachList T post body)
   | .region df s e body => .region df s e (detachList T post body)
   | .pragma p => .pragma p
-
-/-! ## the two failing families of `attach` (decidable, computed by the same traversal) -/
-
-mutual
-def owItem (T : List String) (post : Bool) : Item → Bool
-  | .node _ _ _ _ _ _ body => owGo T post body false Last.none
-  | .region _ _ _ body => owGo T post body false Last.none
-  | .pragma _ => false
-/-- `true` iff some `_update(pragma=…)` / `_update(pragma_post=…)` of `visit_tuple` replaces a non-empty slot -/
-def owGo (T : List String) (post : Bool) : List Item → Bool → Last → Bool
-  | [], pne, l => post && pne && l.q && l.pne
-  | .pragma _ :: xs, _, l => owGo T post xs true l
-  | x :: xs, pne, l =>
-      owItem T post x ||
-      (if !pne then owGo T post xs false (lastOf T x)
-       else if x.qual T then
-         x.preNE || owGo T post xs false (lastOf T x)
-       else if post && l.q && l.hp then l.pne || owGo T post xs false (lastOf T x)
-       else owGo T post xs false (lastOf T x))
-end
-
-mutual
-def strayItem (T : List String) (post : Bool) : Item → Bool
-  | .node _ _ _ _ _ _ body => strayGo T post body false Last.none
-  | .region _ _ _ body => strayGo T post body false Last.none
-  | .pragma _ => false
-/-- `true` iff the end-of-tuple branch sets `pragma_post` on a node that has no such attribute -/
-def strayGo (T : List String) (post : Bool) : List Item → Bool → Last → Bool
-  | [], pne, l => post && pne && l.q && !l.hp
-  | .pragma _ :: xs, _, l => strayGo T post xs true l
-  | x :: xs, _, _ => strayItem T post x || strayGo T post xs false (lastOf T x)
-end
-
-/-- known-finding class `attach-overwrites-slot` -/
-def KnownOverwrite (T : List String) (post : Bool) (xs : List Item) : Bool := owGo T post xs false Last.none
-/-- known-finding class `stray-pragma-post` -/
-def KnownStrayPost (T : List String) (post : Bool) (xs : List Item) : Bool := strayGo T post xs false Last.none
 
 /-! ## identities -/
 
@@ -196,46 +156,30 @@ end
 /-- `content.lower().split(' ')` (ASCII) -/
 def toks (s : String) : List String := s.toLower.splitOn " "
 
-/-- `_matches_starting_pragma(start, p)`; `none` = `IndexError` from `ptok[idx+1]` / `stok[idx]` -/
-def matchesStart (start p : Pragma) : Option Bool :=
+/-- `_matches_starting_pragma(start, p)` (with the bounds checks: a missing token means "no match") -/
+def matchesStart (start p : Pragma) : Bool :=
   let stok := toks start.content
   let ptok := toks p.content
-  if !ptok.contains "end" then some false
-  else if start.keyword.toLower != p.keyword.toLower then some false
+  if !ptok.contains "end" then false
+  else if start.keyword.toLower != p.keyword.toLower then false
   else
     let idx := ptok.idxOf "end"
     match ptok[idx+1]?, stok[idx]? with
-    | some a, some b => some (a == b)
-    | _, _ => none
-
-/-- `any(_matches_starting_pragma(p, p2) for p2 in ps)` (short-circuit) -/
-def anyMatch (p : Pragma) : List Pragma → Option Bool
-  | [] => some false
-  | q :: qs =>
-      match matchesStart p q with
-      | none => none
-      | some true => some true
-      | some false => anyMatch p qs
+    | some a, some b => a == b
+    | _, _ => false
 
 /-- the loop of `get_matching_region_pragmas`; `stack` has its top first -/
-def matchGo : List Pragma → List Pragma → List (Pragma × Pragma) → Option (List (Pragma × Pragma))
-  | [], _, acc => some acc
+def matchGo : List Pragma → List Pragma → List (Pragma × Pragma) → List (Pragma × Pragma)
+  | [], _, acc => acc
   | p :: rest, stack, acc =>
       if !(toks p.content).contains "end" then
-        match anyMatch p (p :: rest) with
-        | none => none
-        | some true => matchGo rest (p :: stack) acc
-        | some false => matchGo rest stack acc
+        if (p :: rest).any (matchesStart p) then matchGo rest (p :: stack) acc else matchGo rest stack acc
       else
         match stack with
         | [] => matchGo rest [] acc
-        | s :: st =>
-            match matchesStart s p with
-            | none => none
-            | some true => matchGo rest st (acc ++ [(s, p)])
-            | some false => matchGo rest stack acc
+        | s :: st => if matchesStart s p then matchGo rest st (acc ++ [(s, p)]) else matchGo rest stack acc
 
-def getMatching (ps : List Pragma) : Option (List (Pragma × Pragma)) := matchGo ps [] []
+def getMatching (ps : List Pragma) : List (Pragma × Pragma) := matchGo ps [] []
 
 mutual
 /-- `FindNodes(Pragma).visit(ir)`: pre-order, attached pragmas (slots) are not children -/
@@ -350,15 +294,23 @@ def Item.body : Item → List Item
   | .region _ _ _ body => body
   | .pragma _ => []
 
-/-- `attach_pragma_regions(root, keyword)`; `none` = `IndexError` raised while matching (nothing modified) -/
-def regAttachRoot (kw : Option String) (root : Item) : Option Item :=
+/-- the pairs `attach_pragma_regions(root, keyword)` hands to the attacher -/
+def rootPairs (kw : Option String) (root : Item) : List (Pragma × Pragma) :=
   let ps := pragmasList root.body
   let ps := match kw with
     | some k => if k.isEmpty then ps else ps.filter (fun p => p.keyword.toLower == k.toLower)
     | none => ps
-  match getMatching ps with
-  | none => none
-  | some pairs => some (root.mapBody (regAtt (sizeList root.body + pairs.length + 1) pairs))
+  getMatching ps
+
+def rootFuel (kw : Option String) (root : Item) : Nat := sizeList root.body + (rootPairs kw root).length + 1
+
+/-- `attach_pragma_regions(root, keyword)` -/
+def regAttachRoot (kw : Option String) (root : Item) : Item :=
+  root.mapBody (regAtt (rootFuel kw root) (rootPairs kw root))
+
+/-- ghost flag of `regAttachRoot` (exact condition of known-finding class `region-index-by-value`) -/
+def regRootBad (kw : Option String) (root : Item) : Bool :=
+  KnownRegionIndex (rootFuel kw root) (rootPairs kw root) root.body
 
 /-! ## dataflow attach / detach: which nodes get the private fields set / cleared -/
 
@@ -453,13 +405,8 @@ structure St where
   exc : Option String
 deriving Inhabited
 
-/-- `attach_pragma_regions` on spec then body; stops at the first root whose matching raises -/
-def regAttachRoots (kw : Option String) : List Item → List Item × Bool
-  | [] => ([], false)
-  | r :: rs =>
-      match regAttachRoot kw r with
-      | none => (r :: rs, true)
-      | some r' => let t := regAttachRoots kw rs; (r' :: t.1, t.2)
+/-- `attach_pragma_regions` on spec then body -/
+def regAttachRoots (kw : Option String) (rs : List Item) : List Item := rs.map (regAttachRoot kw)
 
 def attachRoots (T : List String) (post : Bool) (rs : List Item) : List Item := rs.map (attachItem T post)
 def detachRoots (T : List String) (post : Bool) (rs : List Item) : List Item := rs.map (detachRoot T post)
@@ -469,14 +416,12 @@ def dfDetachRoots (tab : DfTab) (rs : List Item) : List Item := rs.map (dfDetIte
 
 mutual
 /-- one step of a history.  A step is skipped while an exception propagates; the context managers run their
-exit part (`finally`) whether or not the body raised, and do not run it when the enter part itself raised. -/
+exit part (`finally`) whether or not the body raised. -/
 def runOp (tab : DfTab) : Op → St → St
   | op, ⟨rs, some e⟩ => match op with | _ => ⟨rs, some e⟩
   | .attach T post, ⟨rs, none⟩ => ⟨attachRoots T post rs, none⟩
   | .detach T post, ⟨rs, none⟩ => ⟨detachRoots T post rs, none⟩
-  | .rattach kw, ⟨rs, none⟩ =>
-      let r := regAttachRoots kw rs
-      ⟨r.1, if r.2 then some "indexerror" else none⟩
+  | .rattach kw, ⟨rs, none⟩ => ⟨regAttachRoots kw rs, none⟩
   | .rdetach, ⟨rs, none⟩ => ⟨regDetachRoots rs, none⟩
   | .dfattach, ⟨rs, none⟩ => ⟨dfAttachRoots tab rs, none⟩
   | .dfdetach, ⟨rs, none⟩ => ⟨dfDetachRoots tab rs, none⟩
@@ -486,11 +431,8 @@ def runOp (tab : DfTab) : Op → St → St
       let st := runOps tab body ⟨attachRoots T post rs, none⟩
       ⟨detachRoots T post st.roots, st.exc⟩
   | .ctxRegions kw body, ⟨rs, none⟩ =>
-      let r := regAttachRoots kw rs
-      if r.2 then ⟨r.1, some "indexerror"⟩
-      else
-        let st := runOps tab body ⟨r.1, none⟩
-        ⟨regDetachRoots st.roots, st.exc⟩
+      let st := runOps tab body ⟨regAttachRoots kw rs, none⟩
+      ⟨regDetachRoots st.roots, st.exc⟩
   | .ctxDf body, ⟨rs, none⟩ =>
       let st := runOps tab body ⟨dfAttachRoots tab rs, none⟩
       ⟨dfDetachRoots tab st.roots, st.exc⟩
